@@ -29,7 +29,7 @@ import (
 )
 
 type AckFault struct {
-	Kind   string `json:"kind"` // partition | kill | follower_disk | leader_disk
+	Kind   string `json:"kind"` // partition | kill | follower_disk | leader_disk | demote
 	Target int    `json:"target"`
 	AtMs   int    `json:"at_ms"`
 	ForMs  int    `json:"for_ms"`
@@ -43,6 +43,14 @@ type AckBody struct {
 	LingerS    int          `json:"linger_s"`
 }
 
+
+var forceDemote = false
+
+func genAckDemote(prop string, seed uint64, tier string) *Scenario {
+	forceDemote = true
+	defer func() { forceDemote = false }()
+	return genAck(prop, seed, tier)
+}
 
 func genAck(prop string, seed uint64, tier string) *Scenario {
 	r := ssched.Sub(seed, "gen")
@@ -99,6 +107,15 @@ func genAck(prop string, seed uint64, tier string) *Scenario {
 		}
 		body.Faults = append(body.Faults, f)
 	}
+	if forceDemote || r.Intn(8) == 0 {
+		// the leader steps down (the sequence the arbiter runs when it quits the lead), preferably
+		// while acknowledgements are outstanding: a follower is cut off shortly before
+		at := 600 + r.Intn(4000)
+		if body.NFollowers > 0 && r.Intn(4) > 0 {
+			body.Faults = append(body.Faults, AckFault{Kind: "partition", Target: r.Intn(body.NFollowers), AtMs: at - r.Intn(900), ForMs: 2000 + r.Intn(6000)})
+		}
+		body.Faults = append(body.Faults, AckFault{Kind: "demote", AtMs: at})
+	}
 	raw, _ := json.Marshal(body)
 	k := genKnobs(r)
 	k.AofAckMode = uint(r.Intn(2))
@@ -128,6 +145,7 @@ func runAck(w *World) {
 	var leader *Node
 	fnodes := make([]*Node, body.NFollowers)
 	done := false
+	demotedEv := uint64(0)
 	// which nodes have the record of which ack-lock in their log, and since when
 	logged := map[int]map[ackKey]uint64{}
 	diskFail := map[int]bool{} // node -> log writes fail now
@@ -235,6 +253,15 @@ func runAck(w *World) {
 		}
 		isAck := r.Op.Cmd == protocol.COMMAND_LOCK && r.Op.TFlag&tfAck != 0
 		k := ackKey{keyBytes(r.Op.Key), lidBytes(r.Op.Lid)}
+		if demotedEv > 0 && rep.Ev > demotedEv && r.Op.Cmd == protocol.COMMAND_LOCK && rep.Result == protocol.RESULT_SUCCED {
+			// the node has given up the lead: nothing may be granted by it any more, and an ack-lock
+			// that was pending at that moment must fail
+			w.violate("C10", "non_leader_granted", "request %s was answered SUCCED by node n1 after it had stepped down as leader (state %d)", r, leader.sl.state)
+			if isAck {
+				w.violate("C11", "ack_succeeded_after_leadership_lost", "ack-lock %s was answered SUCCED after the leader had stepped down; a pending ack-lock must be failed when leadership is lost", r)
+				return
+			}
+		}
 		switch {
 		case isAck && rep.Result == protocol.RESULT_SUCCED && r.Op.Expried > 0:
 			w.probe("ack_locks_succeeded")
@@ -349,6 +376,36 @@ func runAck(w *World) {
 				case "kill":
 					w.kill(grp)
 					w.fault("follower_kill")
+				case "demote":
+					pend := 0
+					ssched.NoPreempt(func() {
+						for _, q := range h.order {
+							if q.Sent && len(q.Replies) == 0 && q.Op.Cmd == protocol.COMMAND_LOCK && q.Op.TFlag&tfAck != 0 {
+								pend++
+							}
+						}
+					})
+					if pend > 0 {
+						w.probe("demotions_with_pending_ack_locks")
+					}
+					w.fault("leader_demoted")
+					fin := false
+					ssched.SpawnOn(1, "demote", func() {
+						// what ArbiterManager.QuitLeader does with the lock engine and the replication layer
+						sl := leader.sl
+						sl.updateState(STATE_FOLLOWER)
+						demotedEv = h.nextEv()
+						sleep(time.Millisecond)
+						_ = sl.replicationManager.transparencyManager.ChangeLeader("")
+						_ = sl.replicationManager.SwitchToFollower("")
+						fin = true
+					})
+					for i := 0; i < 400 && !fin; i++ {
+						sleep(50 * time.Millisecond)
+					}
+					if !fin {
+						w.violate("C11", "demotion_stuck", "the leader's step-down (updateState(FOLLOWER), SwitchToFollower) has not finished after 20 simulated seconds")
+					}
 				}
 			})
 		}
@@ -387,6 +444,15 @@ func runAck(w *World) {
 
 func init() {
 	kinds["acklocks"] = &kindFn{gen: genAck, run: runAck}
+	kinds["ackdemote"] = &kindFn{gen: genAckDemote, run: runAck}
+	propKinds["C11"] = append(propKinds["C11"], struct {
+		Kind   string
+		Weight int
+	}{"ackdemote", 3})
+	propKinds["C10"] = append(propKinds["C10"], struct {
+		Kind   string
+		Weight int
+	}{"ackdemote", 2})
 	propKinds["C11"] = append(propKinds["C11"], struct {
 		Kind   string
 		Weight int
